@@ -82,6 +82,7 @@ class Program:
 
     # ------------------------------------------------------------------ lookup
     def func(self, qname: str) -> ast.FunctionDef:
+        qname = qname.split("#")[0]   # contract variants ("<qname>#<variant>") attach to the same function
         if qname not in self.funcs:
             raise KeyError(f"function {qname} not found in {self.root} (contract attachment lost)")
         return self.funcs[qname]
@@ -118,7 +119,7 @@ class Program:
         return None
 
     def module_of(self, qname: str) -> str:
-        return qname.split(":")[0]
+        return qname.split("#")[0].split(":")[0]
 
     def func_source_hash(self, qname: str) -> str:
         node = self.func(qname)
